@@ -98,6 +98,11 @@ def run(rep):
         dict(name="C06_fixfn", configs=fixfn_configs(), acts=["grow", "grow_missing", "fix_fn", "resow", "reload", "reap_default"],
              max_steps=7, mode="sim", num=300 if q else 3000, need=["DoFixFn", "DoReSow"]),
     ]
+    # the farmer's constants are changed in the middle of a campaign (results exist already), the crop is sown again and batches
+    # are grown again: every batch grown after the re-sow must carry the new constants, whatever result it had before
+    runs.append(dict(name="C06_reconst", configs=campaign_configs() + [crop.mk([2, 2], kind="combos", bmode="size", bval=3, farmer="runner")],
+                     acts=["grow", "grow_set", "grow_missing", "const_mid", "resow", "reap_default", "reap_partial"],
+                     max_steps=7, mode="sim", num=400 if q else 4000, need=["DoChangeConstMid", "DoReSow"]))
     # overwrite policies with data that really conflicts: the default policy refuses, overwrite=True and overwrite=False both
     # deliver (what a direct harvest with that policy does)
     runs.append(dict(name="C06_conflict", configs=[crop.mk([3], kind="combos", bmode="count", bval=2, farmer="harvester", cause="merge"),
